@@ -14,6 +14,18 @@ import vlib
 
 HERE = os.path.dirname(os.path.abspath(__file__))
 
+WALL_NOTES = []     # drained into R.notes by codec_common
+
+
+def _sh(cmd, timeout=1800, **kw):
+    """vlib.sh, but a wall-clock expiry never decides anything: it is noted and the command is run again without a limit."""
+    rc, out = vlib.sh(cmd, timeout=timeout, **kw)
+    if rc == 124:
+        WALL_NOTES.append("wall-clock limit of %ss expired for %s; run again without a limit (no verdict from a clock)" % (
+            timeout, (cmd if isinstance(cmd, str) else " ".join(map(str, cmd)))[:120]))
+        rc, out = vlib.sh(cmd, timeout=None, **kw)
+    return rc, out
+
 
 def _scratch_module(name, srcs, extra_files=None):
     """A scratch Go module under WROOT whose only dependency is the tree under verification."""
@@ -37,10 +49,10 @@ def schemas(log=None):
     d = _scratch_module("codec-xlate", [(os.path.join(HERE, "schemadump", "main.go"), "main.go")])
     exe = os.path.join(d, "schemadump")
     with vlib.flock("go-codec-xlate"):
-        rc, out = vlib.sh([vlib.GO, "build", "-tags", "verif", "-o", exe, "."], cwd=d, env=vlib.goenv(), timeout=600)
+        rc, out = _sh([vlib.GO, "build", "-tags", "verif", "-o", exe, "."], cwd=d, env=vlib.goenv(), timeout=600)
         if rc != 0:
             return None, "schemadump does not build against the tree: " + out[-1500:]
-        rc, out = vlib.sh([exe, vlib.REPO], env=vlib.goenv(), timeout=300)
+        rc, out = _sh([exe, vlib.REPO], env=vlib.goenv(), timeout=300)
     if rc != 0:
         return None, "schemadump failed: " + out[-1500:]
     try:
@@ -179,7 +191,7 @@ def build_harness(pkgs, out_exe, race=False):
         cmd.append("-race")
     cmd.append("./codec")
     with vlib.flock("go-codec-harness"):
-        rc, out = vlib.sh(cmd, cwd=d, env=vlib.goenv(), timeout=1200)
+        rc, out = _sh(cmd, cwd=d, env=vlib.goenv(), timeout=1200)
     return rc == 0, out
 
 
@@ -190,7 +202,7 @@ def generator_identity(pkgs, work):
     zz_generated.go) to scratch, runs the generator there the way `go generate` does (no arguments, cwd = package
     directory) and byte-compares.  Returns list of (dir, ok, detail)."""
     gen = os.path.join(work, "gondn_tlv_gen")
-    rc, out = vlib.sh(["go", "build", "-o", gen, "./std/cmd/gondn_tlv_gen"], cwd=vlib.REPO, env=vlib.goenv(), timeout=600)
+    rc, out = _sh(["go", "build", "-o", gen, "./std/cmd/gondn_tlv_gen"], cwd=vlib.REPO, env=vlib.goenv(), timeout=600)
     if rc != 0:
         return [("std/cmd/gondn_tlv_gen", False, "generator does not build: " + out[-800:])]
     res = []
@@ -207,7 +219,7 @@ def generator_identity(pkgs, work):
             res.append((p["dir"], False, "no //go:generate gondn_tlv_gen directive in the package"))
             continue
         args = directive[0].split("gondn_tlv_gen", 1)[1].split()
-        rc, out = vlib.sh([gen] + args, cwd=dst, env=vlib.goenv(), timeout=300)
+        rc, out = _sh([gen] + args, cwd=dst, env=vlib.goenv(), timeout=300)
         new = os.path.join(dst, "zz_generated.go")
         if rc != 0 or not os.path.exists(new):
             res.append((p["dir"], False, "generator failed: " + out[-400:]))
